@@ -421,6 +421,8 @@ pub fn run(tier: &str, seed: u64, replay: Option<String>) -> i32 {
     // revised copies / unrelated definitions)
     let gen_base = rng.next_u64() % 1_000_000;
     files.extend(corpus::generated((0..if thorough { 24 } else { 6 }).map(|k| gen_base + k)));
+    // ... and two self-contained projects without any profile or schedule block
+    files.extend(corpus::generated((0..2).map(|k| crate::projgen::SELF_CONTAINED_FROM + k)));
     for f in &files {
         conv_ops.push(json!({"op":"convert_text","file":f.rel}));
     }
@@ -672,6 +674,33 @@ pub fn run(tier: &str, seed: u64, replay: Option<String>) -> i32 {
             env: env_of(rng.next_u64() % 1000, None),
         });
     }
+    // two (or three) DIFFERENT projects converted at the same moment, one conversion per thread:
+    // whatever one conversion keeps in process-wide state between its stages meets the other's
+    let text_ops: Vec<Value> = conv_ops.iter().filter(|o| o["op"] == "convert_text" && o["edit"].is_null()).cloned().collect();
+    let special: Vec<Value> = text_ops.iter().filter(|o| o["file"].as_str().map(|f| crate::projgen::seed_of(f).map(|s| s >= crate::projgen::SELF_CONTAINED_FROM).unwrap_or(false)).unwrap_or(false)).cloned().collect();
+    let n_conv_sched = if thorough { 3_000 } else { 160 };
+    for k in 0..n_conv_sched {
+        if text_ops.len() < 2 {
+            break;
+        }
+        let nthreads = *rng.pick(&[2usize, 2, 2, 3]);
+        let mut threads: Vec<Vec<Value>> = (0..nthreads).map(|_| vec![rng.pick(&text_ops).clone()]).collect();
+        // half of the cases pair a project without profile blocks with one that has them
+        if k % 2 == 0 && !special.is_empty() {
+            threads[0] = vec![rng.pick(&special).clone()];
+        }
+        let sched = match rng.below(3) {
+            0 => json!({"strategy":"random"}),
+            1 => json!({"strategy":"pct","d":rng.range(1,3),"est":rng.range(10,60)}),
+            _ => json!({"strategy":"rr","q":rng.range(0,3)}),
+        };
+        *strategies_used.entry(sched["strategy"].as_str().unwrap_or("").to_string()).or_insert(0) += 1;
+        cases.push(Case {
+            mode: "schedule",
+            job: json!({"t":"proc","threads":threads,"sched":sched,"sched_seed":rng.next_u64() % 1_000_000_007,"fuel": 2_000_000_000i64}),
+            env: env_of(rng.next_u64() % 1000, None),
+        });
+    }
     // ---- fixed checks: unrelated definitions keep every existing id; shipped reference models
     let mut n_edited = 0usize;
     for f in &files {
@@ -825,7 +854,8 @@ pub fn run(tier: &str, seed: u64, replay: Option<String>) -> i32 {
     extra.insert("cases_history".into(), json!(n_history_cases));
     extra.insert("ordered_pairs".into(), json!(n_pairs));
     extra.insert("editor_session_chains".into(), json!(n_session_cases));
-    extra.insert("cases_schedule".into(), json!(n_sched));
+    extra.insert("cases_schedule".into(), json!(n_sched + n_conv_sched));
+    extra.insert("cases_schedule_concurrent_conversions_of_different_projects".into(), json!(n_conv_sched));
     extra.insert("cases_unrelated_definition".into(), json!(n_edited));
     extra.insert("reference_pairs".into(), json!(corpus::reference_pairs().len()));
     extra.insert("histories_after_a_rejected_project".into(), json!(n_rejected));
